@@ -75,6 +75,16 @@ func (it *Interp) opRoundtrip(op *Op) {
 		}
 	}
 	w2 := NewBackend("W2", b0.Cfg, Policy{})
+	// loading changes the world: on a locked (fresh) world it is rejected and leaves nothing behind
+	if len(dump0.Alive) > 0 {
+		lq := w2.all.Query()
+		p := try(func() { w2.U.LoadEntities(&dump0) })
+		n := lq.Count()
+		lq.Close()
+		if p == nil || n != 0 || w2.W.Stats().Entities.Used != 0 {
+			fail("roundtrip|load|locked-world", "LoadEntities on a locked fresh world: panic=%v, the open query now counts %d entities, Stats.Used=%d", p != nil, n, w2.W.Stats().Entities.Used)
+		}
+	}
 	// a dump is made to be stored: every other case it goes through encoding/json before it is loaded
 	if it.Step%2 == 0 {
 		js, err := json.Marshal(dump0)
